@@ -17,7 +17,9 @@ import (
 
 // inserted line menus
 func c18Insertions(tier string) []string {
-	ins := []string{"\n", "# c\n", "// c\n", "# ü€ multi-byte\n", "\n\n", "# one\n# two\n"}
+	ins := []string{"\n", "# c\n", "// c\n", "# ü€ multi-byte\n", "\n\n", "# one\n# two\n",
+		// an insertion larger than any look-behind window a query might use (pushes the cursor beyond 4 KiB)
+		"# " + strings.Repeat("long ", 900) + "\n"}
 	if tier == "thorough" {
 		ins = append(ins, "/* c */\n", "\n# x\n", "  \n", "#\n", "// é 👍\n\n")
 	}
@@ -197,7 +199,7 @@ func c18World(cs *explore.Case, c *report.Collector, l *report.Local, tier strin
 					}
 					c.Add(&report.Violation{Clause: "result-does-not-move-with-text", Site: kindClass(b.q.Kind) + ":" + kind + ":" + where, Check: "c18", SchemaID: cs.Entry.ID, Files: cs.Files(), Query: report.J(b.q),
 						Extra:  report.J(map[string]any{"insert_at": ip, "inserted": ins}),
-						Detail: fmt.Sprintf("%s: inserting %q at byte %d changes the result beyond shifting positions\n original:   %s\n translated: %s\nfile:\n%s", b.q, ins, ip, diffWindow(b.s, sb), diffWindow(sb, b.s), cs.Text)})
+						Detail: fmt.Sprintf("%s: inserting %q at byte %d changes the result beyond shifting positions\n original:   %s\n translated: %s\nfile:\n%s", b.q, shortText(ins), ip, diffWindow(b.s, sb), diffWindow(sb, b.s), cs.Text)})
 				} else if len(sb) > 12 {
 					l.Count("nontrivial", 1)
 					l.Outcome(string(b.q.Kind) + sb)
@@ -239,4 +241,12 @@ func C18(tier string) int {
 		Rule:         "differential E1: files (structure seeds, their prefixes, one-constraint bodies) x every insertion point (line start of each top-level item, end of file) x inserted lines menu (blank, #, //, multi-byte comment, two lines) x all entry points x all rune-boundary cursors; both worlds fully re-collected; canonical results compared after un-shifting every position at/after the insertion point; premises: the translated file lexes to the original tokens shifted plus newline/comment tokens (else skipped_by_premise) and the HCL parser yields the same syntax tree shifted (else skipped_parser_tree_differs: recovery of broken files depends on what follows); non-trivial = non-empty equal result",
 		BiteCounters: []string{"comparisons", "translated_worlds"},
 	})
+}
+
+// shortText abbreviates a long inserted text for messages.
+func shortText(s string) string {
+	if len(s) <= 48 {
+		return s
+	}
+	return fmt.Sprintf("%s...(%d bytes)...%s", s[:20], len(s), s[len(s)-8:])
 }
